@@ -185,6 +185,54 @@ def op_disco(vt, fmt):
     return [("x", (0, 3))], f
 
 
+def jump_code(vt, x):
+    """a loop-shaped code object of version vt: forward jump (operand x), FOR_ITER, conditional jump, backward jump, each followed
+    by the inline caches the real interpreter defines"""
+    from props.common import make_portable, opc_tables, cache_entries
+    opc = opc_tables()["opcode_%d%d" % vt]
+    om = opc.opmap
+    word = vt >= (3, 6)
+    NOP = om["NOP"] if "NOP" in om else om["POP_TOP"]
+    items = []
+
+    def emit(name, arg):
+        op = om[name]
+        items.extend([op, arg] if word else ([op, arg, 0] if op >= opc.HAVE_ARGUMENT else [op]))
+        for _ in range(cache_entries(opc, op)):
+            items.extend([om["CACHE"], 0])
+    emit("JUMP_FORWARD", x)
+    for _ in range(4):
+        emit("NOP" if "NOP" in om else "POP_TOP", 0)
+    emit("FOR_ITER", 2)
+    emit("NOP" if "NOP" in om else "POP_TOP", 0)
+    for nm in ("POP_JUMP_IF_TRUE", "POP_JUMP_FORWARD_IF_TRUE", "JUMP_IF_TRUE"):
+        if nm in om:
+            emit(nm, 1)
+            break
+    emit("NOP" if "NOP" in om else "POP_TOP", 0)
+    if "JUMP_BACKWARD" in om:
+        emit("JUMP_BACKWARD", 3)
+    else:
+        emit("JUMP_ABSOLUTE", 2)
+    emit("RETURN_VALUE", 0)
+    sym = hasattr(x, "var")
+    kw = dict(co_code=mkbytes(items) if sym else bytes(items), co_consts=(1, 2, 3, 4), co_names=(), co_varnames=(),
+              co_name="<module>", co_filename="s.py", co_stacksize=1)
+    if vt < (3, 0):
+        kw["co_lnotab"] = ""
+    return make_portable(vt, **kw), opc
+
+
+def op_jumps(vt):
+    """decode the jumps of version-vt code: labels, targets, jump-target flags (the per-version jump/cache tables are read here)"""
+    def f(x):
+        from xdis.bytecode import Bytecode
+        code, opc = jump_code(vt, x)
+        ins = [(i.offset, i.opname, i.arg, i.argval if isinstance(i.argval, int) else None, bool(i.is_jump_target)) for i in Bytecode(code, opc)]
+        return (_canon(list(opc.findlabels(code.co_code, opc))), _canon(ins))
+    return [("x", (0, 3))], f
+
+
 def op_marsh():
     def f(v):
         import xdis.marsh as MS
@@ -231,6 +279,8 @@ def operations():
         "std_api-27": op_std_api((2, 7)), "std_api-311": op_std_api((3, 11)),
         "dis-39-classic": op_dis((3, 9), "classic"), "dis-312-extended": op_dis((3, 12), "extended"),
         "disco-27-classic": op_disco((2, 7), "classic"), "disco-38-xasm": op_disco((3, 8), "xasm"),
+        "jumps-27": op_jumps((2, 7)), "jumps-38": op_jumps((3, 8)), "jumps-310": op_jumps((3, 10)), "jumps-311": op_jumps((3, 11)),
+        "jumps-312": op_jumps((3, 12)), "jumps-313": op_jumps((3, 13)),
         "marsh": op_marsh(), "load_code-default-args": op_load_code_default(),
         "marsh-py2-A": op_marsh_py2(["os", "zeta", "alpha"]), "marsh-py2-B": op_marsh_py2(["sys", "beta"]),
     }
@@ -378,9 +428,10 @@ def generate(tier, seed):
             continue   # reader-state operations: covered by the pair/order obligations (their frame obligation does not finish)
         obs.append(frame_ob(name, spec, tier))
     probes = ["marsh-py2-B", "load-final38", "load-interim36", "load-interim35", "load-unknown", "get_opcode-39", "std_api-311", "dis-39-classic",
-              "dis-312-extended", "disco-27-classic", "marsh", "load_code-default-args", "get_opcode_module-313", "load-host"]
+              "dis-312-extended", "disco-27-classic", "marsh", "load_code-default-args", "get_opcode_module-313", "load-host",
+              "jumps-38", "jumps-310", "jumps-312", "jumps-313"]
     prefixes = ["marsh-py2-A", "load-final38", "load-final27", "load-interim36", "load-unknown", "get_opcode-27pypy", "std_api-27", "dis-312-extended",
-                "disco-38-xasm", "marsh", "load_code-default-args", "load-host"]
+                "disco-38-xasm", "marsh", "load_code-default-args", "load-host", "jumps-27", "jumps-311", "jumps-313"]
     for p in probes:
         for q in dict.fromkeys(prefixes + [p]):
             obs.append(order_ob(q, ops[q], p, ops[p], tier))
